@@ -182,7 +182,11 @@ func genScenario(id int, seed int64, profile, engineType string, steps int, kPer
 		sort.Ints(sp.TermUp)
 		return sp
 	}
-	if profile == "single" {
+	if profile == "snapretry" {
+		sc.Rx.Replicas = 1
+		sc.Rx.Namespaces = []string{"default"}
+		sc.Sources = []srcSpec{mkSrc("srcA", "default", modeQuad, 64)}
+	} else if profile == "single" {
 		sc.Rx.Replicas = 1
 		sc.Rx.Namespaces = []string{"default", "nsb"}
 		sc.Sources = []srcSpec{
@@ -212,9 +216,9 @@ func genScenarios(c *vc.Ctx) (plain []scenarioCfg, raced []scenarioCfg) {
 	if !c.Thorough() {
 		kinds = []kind{{"single", "mem"}, {"three", "mem"}, {"single", "pebble"}, {"three-xfer", "mem"},
 			{"single", "mem"}, {"three", "pebble"}, {"single", "pebble"}, {"three", "mem"},
-			{"single", "mem"}, {"three-xfer", "pebble"}}
+			{"snapretry", "mem"}, {"three-xfer", "pebble"}}
 	} else {
-		base := []kind{{"single", "mem"}, {"three", "mem"}, {"single", "pebble"}, {"three", "pebble"}, {"single", "mem"}, {"three-xfer", "mem"}, {"three-xfer", "pebble"}}
+		base := []kind{{"single", "mem"}, {"three", "mem"}, {"single", "pebble"}, {"three", "pebble"}, {"snapretry", "mem"}, {"three-xfer", "mem"}, {"three-xfer", "pebble"}}
 		for i := 0; i < 56; i++ {
 			kinds = append(kinds, base[i%7])
 		}
@@ -225,8 +229,11 @@ func genScenarios(c *vc.Ctx) (plain []scenarioCfg, raced []scenarioCfg) {
 		if k.profile != "single" {
 			steps = c.Pick(100, 190)
 		}
+		if k.profile == "snapretry" {
+			steps = c.Pick(70, 140)
+		}
 		sr := 0
-		if k.profile == "single" && (c.Thorough() || id%4 == 0) {
+		if (k.profile == "single" || k.profile == "snapretry") && (c.Thorough() || id%4 == 0) {
 			sr = 1
 		}
 		plain = append(plain, genScenario(id, rng.Int63n(1<<40), k.profile, k.eng, steps, c.Pick(700, 1200), sr))
@@ -234,7 +241,7 @@ func genScenarios(c *vc.Ctx) (plain []scenarioCfg, raced []scenarioCfg) {
 	}
 	nr := c.Pick(3, 16)
 	for i := 0; i < nr; i++ {
-		k := []kind{{"single", "mem"}, {"three", "mem"}, {"three-xfer", "pebble"}, {"single", "pebble"}, {"three", "pebble"}, {"three-xfer", "mem"}}[i%6]
+		k := []kind{{"single", "mem"}, {"three", "mem"}, {"three-xfer", "pebble"}, {"snapretry", "mem"}, {"single", "pebble"}, {"three", "pebble"}, {"three-xfer", "mem"}}[i%7]
 		sc := genScenario(1000+i, rng.Int63n(1<<40), k.profile, k.eng, c.Pick(60, 120), c.Pick(300, 600), 0)
 		sc.Name += "-race"
 		raced = append(raced, sc)
@@ -337,7 +344,7 @@ func runC19(c *vc.Ctx) error {
 		"ApplyRaftReqs-as-method, ApplyRaftReqs-over-gRPC and ProposeRawAndWaitFromSyncer. The plan (a function of VERIF_SEED, tier and scenario index) interleaves: batches of 1..260 entries offered in order, " +
 		"replies dropped / calls cancelled or abandoned (the sender re-sends with the same or another batch size), sender restarts from an older cursor (stale and overlapping batches), two senders delivering the same range concurrently, " +
 		"deliveries to a follower, leader transfers (also in the middle of a batch), graceful stop+start of a namespace node or of the whole server on the same directory (also in the middle of a batch), a follower kept down until it needs a raft snapshot, forced backups, " +
-		"a remote snapshot whose files cannot be fetched (position must stay), and quiescent checks. A sender never offers ordinal j before every i<j was acknowledged to it (or, after a restart, to a previous sender). " +
+		"a remote snapshot whose files cannot be fetched (position must stay), in the snapretry scenarios (single replica, mem, one source) a remote snapshot of the source at an ordinal ahead of the receiver (a real checkpoint built by a second real server fed with the source entries) whose transfer succeeds, whose transferred backup is lost before the apply entry runs (apply fails: position must stay, checked at a quiescent point) and which the sender then ships again (receiver must equal the source at the snapshot ordinal, replay continues behind it), and quiescent checks. A sender never offers ordinal j before every i<j was acknowledged to it (or, after a restart, to a previous sender). " +
 		"Oracles: at quiescent points (every running replica has applied == max commit before and after the read) the keys log/n/s/h.f of each source equal the model at the replica's synced position, positions never decrease between quiescent points (also across restarts) nor below an acknowledged ordinal; " +
 		"GetSyncedRaft polled by the driver after every call, by a gRPC poller and by an in-process poller never decreases within one life of a node; effects read after a position on the same node cover that position. " +
 		"evaluations = scenarios that ran to their final check; an execution is non-trivial when it contained >=1 delivery of an entry at or below the synced position read just before the call AND >=1 receiver restart or raft snapshot; " +
@@ -347,7 +354,7 @@ func runC19(c *vc.Ctx) error {
 		"(mem: also a learner kept down until the voter must send its snapshot, i.e. the remote snapshot transfer+apply path); oracle: at settle (destination synced index >= source applied index) destination content == source content for every written key, every id once."
 	c.Ev.Assume("engines mem and pebble only (no verdict for rocksdb)")
 	c.Ev.Assume("in-process receiver restarts are graceful (Close/Stop + start on the same directory); kill -9 of the receiver and of the real sender is covered only by the end-to-end variant (thorough tier)")
-	c.Ev.Assume("a remote snapshot transfer that SUCCEEDS is only exercised by the end-to-end mem run (local-copy fallback enabled by node.EnableForTest, faithful only for one-file mem checkpoints); the in-process variant only plays a transfer whose files cannot be fetched, so the errIgnoredRemoteApply path of postprocessRemoteApply is not exercised")
+	c.Ev.Assume("remote snapshot transfers that succeed use the local-copy path of common.RunFileSync (SyncAddr empty) and the mem engine only (one-file checkpoints; the rsync path needs the source's daemon); the apply failure injected is 'transferred backup lost before the apply entry runs'")
 	c.Ev.Assume("the receiver runs in syncer-only mode (stand-by cluster), so the timestamp conflict filter of master-master mode is not part of the checked mechanism")
 	c.Ev.Assume("a transiently lower position reported right after a restart, while the node still replays its own log, is counted (transient_position_below_prestop_right_after_restart) but is not a violation: positions are compared within one life of a node and across restarts at quiescent points")
 	c.Ev.Assume("replays re-execute the recorded scenario (same plan); goroutine timing of concurrent senders, cancel delays and leader-transfer offsets is re-sampled, so racy failures are approximately replayable")
